@@ -30,6 +30,14 @@ type (
 	NFloat64 float64
 )
 
+// Some of the named numeric types have methods, as time.Duration, time.Month or an enum with a
+// String method have: a number is a number whatever methods its type carries.
+func (n NInt) String() string                 { return "NInt(" + strconv.FormatInt(int64(n), 10) + ")" }
+func (n NInt64) String() string               { return "NInt64(" + strconv.FormatInt(int64(n), 10) + ")" }
+func (n NUint8) String() string               { return "NUint8(" + strconv.FormatUint(uint64(n), 10) + ")" }
+func (n NFloat64) String() string             { return "NFloat64" }
+func (n NInt16) MarshalText() ([]byte, error) { return []byte("n16"), nil }
+
 // Predeclared struct types with unexported fields (reflect.StructOf cannot make them).
 type UnexpA struct {
 	A any
